@@ -65,7 +65,13 @@ def dispatch_table(ctx, cname, server):
     pre = [eio] if server else []
     for t in TYPES:
         run = run_function(f, ctx.model, oracle=type_oracle(t, False))
-        paths = run.paths
+        # a path that leaves before anything was decoded, dispatched or
+        # stored (a guard dropping frames that cannot be packets) is not an
+        # arm of the table
+        paths = [p for p in run.paths if not (
+            p.normal and not p.calls('packet_class') and
+            not handler_calls(p) and
+            not any(e.kind in ('store', 'del') for e in p.events))]
         if len(paths) != 1:
             raise AnalysisError('%s: %d paths for packet type %s; a test in '
                                 'the dispatch is outside the type '
@@ -162,10 +168,22 @@ def reassembly(ctx, cname, server):
     for done in (True, False):
         for t in ('BINARY_EVENT', 'BINARY_ACK'):
             run = run_function(f, ctx.model, oracle=type_oracle(t, True, done))
-            if len(run.paths) != 1:
+            if not 1 <= len(run.paths) <= 8:
                 raise AnalysisError('%s: %d paths in the attachment arm'
                                     % (construct, len(run.paths)))
-            p = run.paths[0]
+            for p in run.paths:
+                _reassembly_path(ctx, run, p, t, done, construct, w, tgt,
+                                 datap, eio, server)
+
+
+def _reassembly_path(ctx, run, p, t, done, construct, w, tgt, datap, eio,
+                     server):
+    if True:
+        if True:
+            extra = [('' if c.pol else 'not ') + c.text for c in p.conds
+                     if '_binary_packet' not in U(run.expand(c.atom)) and
+                     'add_attachment' not in U(run.expand(c.atom)) and
+                     'packet_type' not in U(run.expand(c.atom))]
             hc = handler_calls(p)
             add = p.calls('add_attachment')
             okadd = len(add) == 1 and \
@@ -174,8 +192,15 @@ def reassembly(ctx, cname, server):
             ctx.check(okadd and not p.calls('packet_class'), construct,
                       '[pending %s] the frame is handed to the pending '
                       'packet of this transport, not decoded' % t,
-                      key='attach', reason='attachment arm calls %s' % [
-                          U(run.expand(e.expr))[:70] for e in add], where=w)
+                      key='attach', reason='with a binary packet pending the '
+                      'frame %s (attachment arm calls %s)%s' % (
+                          'is not handed to it' if not add else 'is handed '
+                          'on wrongly', [U(run.expand(e.expr))[:70]
+                                         for e in add],
+                          ' on the path where ' + ' and '.join(extra)
+                          if extra else ''), where=w)
+            if not okadd:
+                return
             X = lambda n: U(run.expand(n))   # noqa: E731
             cleared = [e for e in p.events if
                        (e.kind == 'del' and X(e.expr) == tgt) or
@@ -190,7 +215,7 @@ def reassembly(ctx, cname, server):
                           reason='incomplete packet: handlers %s, cleared '
                           '%d' % ([h.callee() for h in hc], len(cleared)),
                           where=w)
-                continue
+                return
             want = '_handle_event' if t == 'BINARY_EVENT' else '_handle_ack'
             pre = [eio] if server else []
             pk = tgt
@@ -404,7 +429,16 @@ def callback_typestate(ctx, cname, fname, keys, rid):
     f = m.method(cname, fname)
     construct = '%s.%s' % (cname, fname)
     w = where(f)
-    run = run_function(f, m, declared_raises=True)
+    # the application's callback may raise anything: "at most once" has to
+    # hold on the exceptional continuations too
+    def cb_raiser(e):
+        if e.kind == 'call' and isinstance(e.node, ast.Call) and \
+                isinstance(e.node.func, ast.Name) and \
+                e.node.func.id not in ('len', 'isinstance', 'list', 'tuple',
+                                       'print', 'getattr'):
+            return '*'
+        return None
+    run = run_function(f, m, declared_raises=True, raiser=cb_raiser)
     k1, k2 = keys
     entry = 'self.callbacks[%s][%s]' % (k1, k2)
     n_invoke = n_fail = 0
@@ -444,6 +478,14 @@ def callback_typestate(ctx, cname, fname, keys, rid):
                           [x for _, x in inv], [U(e.expr) for e in muts],
                           p.exit), where=w, rid=rid)
             continue
+        if len(inv) > 1:
+            ctx.check(False, construct, 'one ACK invokes the callback at '
+                      'most once', key='invoke-once', reason='the callback '
+                      'is invoked %d times on the path where the first '
+                      'invocation raised (%s): an exception inside the '
+                      'callback cannot be told from a signature mismatch'
+                      % (len(inv), ', '.join(U(e.expr)[:40] for e, _ in inv)),
+                      where=where(f, inv[1][0].node), rid=rid)
         for e, what in inv:
             n_invoke += 1
             ctx.check(what == entry, construct, 'the invoked value is the '
